@@ -286,9 +286,51 @@ def transition_history(rng, cid):
     return Case(cid, ops, {})
 
 
+def drain_history(rng, cid):
+    """gauges of the local metrics drain: paired increments / decrements per slot, the odd unpaired decrement
+    (underflow), absolute sets, negative first emissions, clear / remove_cluster with sessions in flight (their late
+    decrements), add_cluster, remove_backend, the detail level and the cluster switch changed at run time"""
+    ops = []
+    if rng.random() < 0.7:
+        ops.append(["m_detail", rng.choice([3, 3, 3, 2, 1, 0])])
+    out = []                                   # outstanding increments (slot)
+    def slot():
+        sc = rng.choice([0, 1, 1, 2, 2, 2])
+        return [sc, rng.choice([0, 0, 1]), rng.choice([0, 1]), rng.choice([0, 0, 1])]
+    for _ in range(rng.randint(6, 40)):
+        x = rng.random()
+        if x < 0.32:
+            sl = slot()
+            out.append(sl)
+            ops.append(["m_recv"] + sl + [1, rng.choice([1, 1, 1, 2])])
+        elif x < 0.60 and out:
+            sl = out.pop(rng.randrange(len(out)))
+            ops.append(["m_recv"] + sl + [1, -1])
+        elif x < 0.68:
+            ops.append(["m_recv"] + slot() + [1, rng.choice([-1, -1, -2, -3])])         # unpaired: may underflow
+        elif x < 0.75:
+            ops.append(["m_recv"] + slot() + [0, rng.choice([0, 1, 5, 2 ** 40])])
+        elif x < 0.80:
+            ops.append(["m_clear"])
+        elif x < 0.86:
+            ops.append(["m_rmcluster", rng.choice([0, 0, 1])])
+        elif x < 0.90:
+            ops.append(["m_addcluster", rng.choice([0, 0, 1])])
+        elif x < 0.94:
+            ops.append(["m_rmbackend", rng.choice([0, 1]), rng.choice([0, 1])])
+        elif x < 0.97:
+            ops.append(["m_detail", rng.choice([0, 1, 2, 3, 3])])
+        else:
+            ops.append(["m_enable", rng.choice([0, 1, 1])])
+    for sl in out:                             # the sessions end: their decrements arrive whatever happened meanwhile
+        ops.append(["m_recv"] + sl + [1, -1])
+    return Case(cid, ops, {})
+
+
 def gen_cases(rng, tier):
     n = {"quick": 2000, "thorough": 80000, "search": 12000}.get(tier, 2000)
-    return [transition_history(rng, "t%d" % i) if i % 8 == 4 else history(rng, "h%d" % i) if i % 8 else pool_history(rng, "p%d" % i) for i in range(n)]
+    return [transition_history(rng, "t%d" % i) if i % 8 == 4 else drain_history(rng, "d%d" % i) if i % 8 == 6
+            else history(rng, "h%d" % i) if i % 8 else pool_history(rng, "p%d" % i) for i in range(n)]
 
 
 def corpus_cases():
@@ -359,6 +401,9 @@ def nontrivial(case, o):
     refused_track = any(op[0] == "track" and ob == [1] for op, ob in zip(case.ops, o["obs"]))
     multi = any(op[0] == "dump" and len(ob) > 12 and max(ob[6:12]) >= 2 for op, ob in zip(case.ops, o["obs"]))
     refused_accept = any(op[0] == "accept" and len(ob) == 4 and ob[1] == 0 for op, ob in zip(case.ops, o["obs"]))
+    if case.ops and case.ops[0][0].startswith("m_"):  # drain histories: a gauge reached 2 and an underflow was clamped
+        last = [ob for op, ob in zip(case.ops, o["obs"]) if op[0].startswith("m_") and len(ob) == 15]
+        return bool(last) and last[-1][-1] >= 1 and any(v >= 2 for ob in last for v in ob[:-1])
     if case.ops and case.ops[0][0] == "pool_new":     # pool histories: the capacity grew and a checkout was refused
         caps = set(ob[-2] for op, ob in zip(case.ops, o["obs"]) if len(ob) >= 3)
         refused = any(op[0] == "checkout" and ob and ob[0] == 0 for op, ob in zip(case.ops, o["obs"]))
